@@ -81,6 +81,18 @@ Theorem C07_order_independent : forall m s1 s2,
 Proof. exact order_independent. Qed.
 Print Assumptions C07_order_independent.
 
+(** independence from the account stream: ExecutionManager::init merges the response channel
+    with the reconnecting account stream; whatever the schedule of account-stream disconnects,
+    failed re-initialisations and backoff policy, the answers carried by the merged stream are
+    the same, namely one [spec_event] per request taken in.  (In the model the two sides share
+    no state — that the runtime merge keeps delivering both is exercised by the 'Acct' runs.) *)
+Theorem C07_answers_independent_of_account_stream : forall m stop script pol1 sched1 pol2 sched2,
+  sorted_by_arrival script = true ->
+  orders_of (merged m stop script pol1 sched1) = orders_of (merged m stop script pol2 sched2) /\
+  Permutation (orders_of (merged m stop script pol1 sched1)) (spec_events m stop script).
+Proof. exact answers_independent_of_account_stream. Qed.
+Print Assumptions C07_answers_independent_of_account_stream.
+
 (** Non-vacuity: manager of exchange 1 with instruments 2 and 3, timeout 10 ms; an open answered
     in time, a cancel answered too late, an open never answered, an open answered with an
     error at the last in-time millisecond, all outstanding together. *)
